@@ -124,6 +124,10 @@ func (tc *TypeConverter) CollectPatternImports(p KessokuPattern, sourceImports m
 			tc.CollectPatternImports(elem, sourceImports)
 		}
 	case *KessokuProvide:
+		if kp.Synthesized {
+			// already spelled with the output file's import names
+			return
+		}
 		tc.CollectExprImports(kp.FuncExpr, sourceImports)
 	case *KessokuBind:
 		tc.CollectPatternImports(kp.Provider, sourceImports)
